@@ -49,6 +49,10 @@ class TraceChecker:
         self.pause_snap = {}  # cid -> serial numbers of the entries that were queued when it paused
         self.runner = None    # coroutine executing right now
         self.must_continue = None  # (cid, why) the coroutine that must execute the next event
+        self.nest = []        # callers blocked in a nested start() (no new queue is installed for it): coroutine ids,
+                              # or "main" for ordinary code inside an install_queue_and_call block; innermost last
+        self.returned = False  # the running chain has returned to its resumer (park / future await / co_return with
+                               # nobody awaiting): with a nested start() pending, its caller must continue now
         self.blocks = 0
         self.resumes = {}
         self.maxdepth = 0
@@ -89,6 +93,16 @@ class TraceChecker:
             p, why = self.must_continue
             self.flag("preempt", "coroutine %d ran while coroutine %d was still running (%s)" % (c, p, why))
         self.must_continue = None
+        if self.returned and self.nest:
+            top = self.nest[-1]
+            if top == "main":
+                self.flag("preempt", "coroutine %d ran inside a start() call of ordinary code (queue installed by an enclosing "
+                          "block) after the started coroutine had suspended/finished; queued coroutines must wait for the "
+                          "end of the block" % c)
+            elif top != c:
+                self.flag("preempt", "coroutine %d ran inside the start() call of coroutine %d after the coroutine it started had "
+                          "suspended/finished, although %d itself has neither suspended nor finished" % (c, top, top))
+        self.returned = False
         if self.runner != c:
             # a switch: c must have been made ready (or be a nested starter getting control back)
             s = self.st(c)
@@ -111,7 +125,8 @@ class TraceChecker:
                     self.loop.remove(c)
                 self.resumes[c] = self.resumes.get(c, 0) + 1
             elif s == "stacked":
-                pass
+                while self.nest and self.nest.pop() != c:
+                    pass
             elif s == "running":
                 self.flag("reentry", "coroutine %d executes although another activation of it is running" % c)
             else:
@@ -146,6 +161,8 @@ class TraceChecker:
         elif kind in ("park", "parkn"):
             self.status[c] = "parked"
             self.runner = None
+            # `parkn` leaves through resume_handle_next(): the queue head, if any, by symmetric transfer
+            self.returned = kind == "park" or not self.queue
         elif kind == "pause":
             self.pause_snap[c] = set(self.qseq)
             self.enqueue([c])
@@ -155,6 +172,7 @@ class TraceChecker:
                 self.status[d] = "direct"
                 self.starter[d] = c
                 self.status[c] = "stacked"
+                self.nest.append(c)
                 self.runner = None
                 self.nested += 1
             else:
@@ -172,15 +190,18 @@ class TraceChecker:
                 self.status[c] = "waiting"
                 self.waiting_for[c] = d
                 self.runner = None
+                self.returned = True
             else:
                 self.must_continue = (c, "the joined future is ready")
         elif kind == "end":
             self.status[c] = "done"
             self.runner = None
+            self.returned = True
             for p, ch in list(self.waiting_for.items()):
                 if ch == c and self.st(p) == "waiting":
                     self.status[p] = "direct"
                     del self.waiting_for[p]
+                    self.returned = False   # final_awaiter transfers to the awaiting coroutine
         else:  # enter/leave inside a script: no-op
             self.must_continue = (c, "no-op")
 
@@ -199,6 +220,8 @@ class TraceChecker:
             if self.st(d) == "fresh":
                 self.status[d] = "direct"
                 self.starter[d] = -1
+                if self.blocks:
+                    self.nest.append("main")
         elif kind == "enter":
             self.blocks += 1
         elif kind == "leave":
@@ -210,6 +233,8 @@ class TraceChecker:
         if self.must_continue is not None:
             self.must_continue = None
         self.runner = None
+        self.returned = False
+        self.nest = []
         if in_block:
             if active != 1:
                 self.flag("drain", "%s: is_active()=%d inside an install_queue_and_call block" % (where, active))
